@@ -8,15 +8,20 @@
                   (handler runs up to the point right after the headers are out)
      Proceed(c)   the handler continues up to its wait on the connection context
      ClientClose(c)  the client drops stream c; the handler wakes up
-     Cleanup(c)   a woken handler runs its exit path under the table lock and returns
+     CleanupBegin(c) a woken handler starts its exit path (it then waits for an in-flight writer)
+     Cleanup(c)   ... and, once no writer holds the stream's write lock, removes its entry under
+                  the table lock and returns
      SendStart(k) SendNotification / SendRequest looks the session's stream up
-     SendEnd(k)   ... writes the frame on the stream it found and returns
+     SendAcquire(k) ... takes the write lock of the stream it found (refused if that stream is ending)
+     SendEnd(k)   ... writes the frame and returns
 
    Two switches describe the two orders/behaviours the code may have:
      FlushFirst   TRUE : headers are flushed, THEN the stream is registered   (as built, defect)
                   FALSE: the stream is registered before the headers go out   (intended)
      DeleteByKey  TRUE : the exit path deletes table[session]                 (as built, defect)
                   FALSE: the exit path deletes the entry only if it is its own (intended)
+     StaleCheck   TRUE : "is the entry still mine?" is decided when the exit path STARTS and acted
+                         upon when it ends (a refactoring hazard)   FALSE: decided at the delete
 
    The OBSERVABLE part (the oracle, shared with TraceGetStream) is what the
    property states: a send that starts after the newest stream's headers were
@@ -24,7 +29,7 @@
    client, must succeed and be delivered on exactly that stream.             *)
 EXTENDS Naturals, Sequences, FiniteSets, TLC
 
-CONSTANTS NConn, NSend, FlushFirst, DeleteByKey
+CONSTANTS NConn, NSend, FlushFirst, DeleteByKey, StaleCheck
 
 ConnSeq == <<"c1", "c2", "c3", "c4", "c5", "c6", "c7", "c8">>
 SendSeq == <<"k1", "k2", "k3", "k4", "k5", "k6", "k7", "k8">>
@@ -34,7 +39,9 @@ None == "none"
 AnyS == "any"
 
 VARIABLES
-  pc,        \* handler of c: "idle" | "s1" (headers out, parked) | "running" | "woken" | "done"
+  pc,        \* handler of c: "idle" | "s1" (headers out, parked) | "running" | "woken" | "closing" | "done"
+  wlock,     \* wlock[c]: the send holding c's write lock, or None
+  mine,      \* mine[c]: what the exit path of c believed when it started (StaleCheck)
   table,     \* the session's entry in the stream table: a connection or None
   regd,      \* connections that have executed their registration
   \* ---- observable / oracle part
@@ -46,13 +53,15 @@ VARIABLES
   exp,       \* oracle: stream on which send k must arrive, or AnyS
   res        \* result of send k: [ok, on]
 
-vars == <<pc, table, regd, opened, newest, dropped, spc, tgt, exp, res>>
+vars == <<pc, wlock, mine, table, regd, opened, newest, dropped, spc, tgt, exp, res>>
 obsvars == <<opened, newest, dropped, spc, exp, res>>
 
 NoRes == [ok |-> FALSE, on |-> "unset"]
 
 Init ==
   /\ pc = [c \in Conn |-> "idle"]
+  /\ wlock = [c \in Conn |-> None]
+  /\ mine = [c \in Conn |-> FALSE]
   /\ table = None
   /\ regd = {}
   /\ opened = 0
@@ -67,11 +76,11 @@ Init ==
 \* headers of c arrive at the client: c is the newest stream; sends in flight lose their addressee
 OHeaders(c) ==
   /\ newest' = c
-  /\ exp' = [k \in Send |-> IF spc[k] = "looked" THEN AnyS ELSE exp[k]]
+  /\ exp' = [k \in Send |-> IF spc[k] \in {"looked", "writing"} THEN AnyS ELSE exp[k]]
 
 ODrop(c) ==
   /\ dropped' = dropped \cup {c}
-  /\ exp' = [k \in Send |-> IF spc[k] = "looked" /\ exp[k] = c THEN AnyS ELSE exp[k]]
+  /\ exp' = [k \in Send |-> IF spc[k] \in {"looked", "writing"} /\ exp[k] = c THEN AnyS ELSE exp[k]]
 
 OExpect == IF newest # None /\ newest \notin dropped THEN newest ELSE AnyS
 
@@ -99,7 +108,7 @@ Open(c) ==
        THEN /\ pc' = [pc EXCEPT ![c] = "s1"]
             /\ UNCHANGED <<table, regd>>
        ELSE DoRegister(c, pc)
-  /\ UNCHANGED <<dropped, spc, tgt, res>>
+  /\ UNCHANGED <<wlock, mine, dropped, spc, tgt, res>>
 
 Proceed(c) ==
   /\ pc[c] = "s1"
@@ -107,20 +116,27 @@ Proceed(c) ==
        THEN DoRegister(c, pc)
        ELSE /\ pc' = [pc EXCEPT ![c] = IF table = c THEN "running" ELSE "woken"]
             /\ UNCHANGED <<table, regd>>
-  /\ UNCHANGED <<opened, newest, dropped, spc, tgt, exp, res>>
+  /\ UNCHANGED <<wlock, mine, opened, newest, dropped, spc, tgt, exp, res>>
 
 ClientClose(c) ==
   /\ pc[c] = "running"
   /\ c \notin dropped
   /\ pc' = [pc EXCEPT ![c] = "woken"]
   /\ ODrop(c)
-  /\ UNCHANGED <<table, regd, opened, newest, spc, tgt, res>>
+  /\ UNCHANGED <<wlock, mine, table, regd, opened, newest, spc, tgt, res>>
+
+CleanupBegin(c) ==
+  /\ pc[c] = "woken"
+  /\ pc' = [pc EXCEPT ![c] = "closing"]
+  /\ mine' = [mine EXCEPT ![c] = (table = c)]
+  /\ UNCHANGED <<wlock, table, regd, opened, newest, dropped, spc, tgt, exp, res>>
 
 Cleanup(c) ==
-  /\ pc[c] = "woken"
+  /\ pc[c] = "closing"
+  /\ wlock[c] = None                      \* the handler never returns while a writer uses its stream
   /\ pc' = [pc EXCEPT ![c] = "done"]
-  /\ table' = IF DeleteByKey \/ table = c THEN None ELSE table
-  /\ UNCHANGED <<regd, opened, newest, dropped, spc, tgt, exp, res>>
+  /\ table' = IF DeleteByKey \/ (IF StaleCheck THEN mine[c] ELSE table = c) THEN None ELSE table
+  /\ UNCHANGED <<wlock, mine, regd, opened, newest, dropped, spc, tgt, exp, res>>
 
 \* symmetry breaking: sends are used in the order k1, k2, ...
 SendOrder(k) == \A i \in 1..NSend : SendSeq[i] = k => \A j \in 1..(i-1) : spc[SendSeq[j]] # "idle"
@@ -132,46 +148,62 @@ SendStart(k) ==
   /\ spc' = [spc EXCEPT ![k] = "looked"]
   /\ tgt' = [tgt EXCEPT ![k] = table]
   /\ exp' = [exp EXCEPT ![k] = OExpect]
-  /\ UNCHANGED <<pc, table, regd, opened, newest, dropped, res>>
+  /\ UNCHANGED <<pc, wlock, mine, table, regd, opened, newest, dropped, res>>
+
+Ending(c) == pc[c] \in {"woken", "closing", "done"}
+
+\* take the write lock of the stream found; a stream whose handler has been woken refuses writes
+SendAcquire(k) ==
+  /\ spc[k] = "looked"
+  /\ IF tgt[k] = None \/ (wlock[tgt[k]] = None /\ Ending(tgt[k]))
+       THEN /\ spc' = [spc EXCEPT ![k] = "done"]
+            /\ res' = [res EXCEPT ![k] = [ok |-> FALSE, on |-> None]]
+            /\ UNCHANGED wlock
+       ELSE /\ wlock[tgt[k]] = None
+            /\ wlock' = [wlock EXCEPT ![tgt[k]] = k]
+            /\ spc' = [spc EXCEPT ![k] = "writing"]
+            /\ UNCHANGED res
+  /\ UNCHANGED <<pc, mine, table, regd, opened, newest, dropped, tgt, exp>>
 
 SendEnd(k) ==
-  /\ spc[k] = "looked"
+  /\ spc[k] = "writing"
   /\ spc' = [spc EXCEPT ![k] = "done"]
-  \* a stream whose handler has been woken (superseded / dropped) refuses writes: the response
-  \* writer must not be touched once its handler may return
-  /\ res' = [res EXCEPT ![k] = IF tgt[k] = None \/ pc[tgt[k]] \in {"woken", "done"}
-                                THEN [ok |-> FALSE, on |-> None]
-                                ELSE [ok |-> TRUE, on |-> tgt[k]]]
-  /\ UNCHANGED <<pc, table, regd, opened, newest, dropped, tgt, exp>>
+  /\ wlock' = [wlock EXCEPT ![tgt[k]] = None]
+  /\ res' = [res EXCEPT ![k] = [ok |-> TRUE, on |-> tgt[k]]]
+  /\ UNCHANGED <<pc, mine, table, regd, opened, newest, dropped, tgt, exp>>
 
 Next ==
   \/ \E c \in Conn : Open(c)
   \/ \E c \in Conn : Proceed(c)
   \/ \E c \in Conn : ClientClose(c)
+  \/ \E c \in Conn : CleanupBegin(c)
   \/ \E c \in Conn : Cleanup(c)
   \/ \E k \in Send : SendStart(k)
+  \/ \E k \in Send : SendAcquire(k)
   \/ \E k \in Send : SendEnd(k)
 
 Spec == Init /\ [][Next]_vars
 
 (* ------------------------------------------------------------ properties *)
 TypeOK ==
-  /\ pc \in [Conn -> {"idle", "s1", "running", "woken", "done"}]
+  /\ pc \in [Conn -> {"idle", "s1", "running", "woken", "closing", "done"}]
   /\ table \in Conn \cup {None}
-  /\ spc \in [Send -> {"idle", "looked", "done"}]
+  /\ spc \in [Send -> {"idle", "looked", "writing", "done"}]
 
 \* C11, first sentence: every finished send conforms to the oracle
 SendOK == \A k \in Send : spc[k] = "done" => SendConforms(k, res[k])
 
 \* C11, last sentence: "a stream that ends for any reason removes only itself"
 ExitRemovesOnlySelf ==
-  [][\A c \in Conn : (pc[c] = "woken" /\ pc'[c] = "done" /\ table # c) => table' = table]_vars
+  [][\A c \in Conn : (pc[c] = "closing" /\ pc'[c] = "done" /\ table # c) => table' = table]_vars
 
 \* the table never points at a stream whose handler has returned while a live one exists
 NoStaleOwner == table # None => pc[table] # "idle"
 
 \* the old stream is closed: a superseded stream is always on its way out
-OldIsClosed == \A c \in Conn : (c \in regd /\ table \notin {c, None}) => pc[c] \in {"s1", "woken", "done"}
+OldIsClosed == \A c \in Conn : (c \in regd /\ table \notin {c, None}) => pc[c] \in {"s1", "woken", "closing", "done"}
+\* a handler never returns while a writer holds its stream
+NoWriteAfterReturn == \A c \in Conn : wlock[c] # None => pc[c] # "done"
 
 \* used to make sure the interesting part of the space is reached (sanity / vacuity guard)
 ReachStrict == ~(\E k \in Send : spc[k] = "done" /\ exp[k] # AnyS /\ opened >= 2)
